@@ -64,6 +64,7 @@ pub fn clusters_strategy(fat32: bool) -> BoxedStrategy<u32> {
         prop_oneof![
             3 => Just(65525u32), 1 => Just(65526u32), 1 => Just(65527u32),
             2 => (0u32..600).prop_map(|x| 65525 + x),
+            3 => (65_700u32..66_500),
             // (count+2) % 128 in {0,1,64}
             1 => (512u32..530).prop_map(|k| k * 128 - 2),
             1 => (512u32..530).prop_map(|k| k * 128 - 1),
@@ -113,9 +114,9 @@ pub fn geom_strategy(pick: FatPick) -> impl Strategy<Value = VolGeom> {
     ft.prop_flat_map(|fat32| (Just(fat32), clusters_strategy(fat32)))
         .prop_flat_map(|(fat32, clusters)| {
             let reserved = if fat32 {
-                prop_oneof![4 => Just(32u16), 2 => (3u16..64), 1 => Just(3u16)].boxed()
+                prop_oneof![4 => Just(32u16), 2 => (3u16..64), 1 => Just(3u16), 1 => prop::sample::select(vec![255u16, 256, 257, 288, 4000, 65535])].boxed()
             } else {
-                prop_oneof![4 => Just(1u16), 2 => (1u16..9)].boxed()
+                prop_oneof![4 => Just(1u16), 2 => (1u16..9), 1 => prop::sample::select(vec![255u16, 256, 257, 288, 1000, 65535])].boxed()
             };
             (
                 (Just(fat32), Just(clusters), spc_strategy(), reserved, prop_oneof![Just(1u8), Just(2u8), Just(2u8)]),
@@ -170,7 +171,7 @@ pub fn usable_strategy() -> impl Strategy<Value = Usable> {
     (
         prop::bool::weighted(0.2),
         (8u16..200),
-        prop_oneof![2 => Just(0u16), 1 => (1u16..40)],
+        prop_oneof![1 => Just(0u16), 1 => (1u16..40)],
         prop_oneof![2 => Just(0u16), 1 => (1u16..24)],
         prop_oneof![4 => Just(None), 3 => (0u16..12).prop_map(Some), 2 => (12u16..100).prop_map(Some)],
         any::<u32>(),
@@ -333,9 +334,12 @@ pub fn vol_strategy(bias: VolBias) -> impl Strategy<Value = VolSpec> {
         let usable = if bias.tight {
             usable_strategy()
                 .prop_map(|mut u| {
-                    u.all = false;
-                    if u.free_after.is_none() || u.free_after.unwrap() > 12 {
-                        u.free_after = Some((u.frag_seed % 9) as u16);
+                    // three quarters of the "tight" volumes really are tight
+                    if u.frag_seed % 4 != 3 {
+                        u.all = false;
+                        if u.free_after.is_none() || u.free_after.unwrap() > 12 {
+                            u.free_after = Some(((u.frag_seed >> 2) % 9) as u16);
+                        }
                     }
                     u
                 })
